@@ -1,3 +1,2 @@
-import Gotlcp.Oracle.Common
-/-- placeholder: the oracle of C12 is not written yet -/
-def main : IO Unit := Gotlcp.Oracle.mainWith (fun _ _ => none)
+import Gotlcp.Oracle.C12
+def main : IO Unit := Gotlcp.Oracle.mainWith Gotlcp.Oracle.C12.judge
